@@ -29,7 +29,7 @@ ASSUMPTIONS = [
 BUDGET = {"quick": 80, "thorough": 800}
 ROUNDS = {"thorough": 8}
 FLOORS = {"posterior_identities": {"quick": 3000, "thorough": 30000}, "off_posterior_recomputations": {"quick": 800, "thorough": 8000}, "api_cases": {"quick": 30, "thorough": 300}, "pairing_checks": {"quick": 3000, "thorough": 30000},
-          "families": 7, "objectives": 6, "driver_iterations": 20}
+          "families": 7, "objectives": 6, "driver_iterations": 20, "q_moved_to_posterior_after_use": {"quick": 200, "thorough": 2000}}
 
 FAMILIES = ["gamma-exponential", "gamma-poisson", "normal-normal", "beta-binomial", "mvn", "lognormal-exp", "normal-affine"]
 OBJECTIVES = ["ELBO", "ELBO-entropy", "ELBO-multi", "VR", "CUBO", "KLpq"]
@@ -53,6 +53,12 @@ def cases(tier, seed):
             out[-1]["blocks"] = True
         if fam in ("gamma-exponential", "gamma-poisson", "normal-normal") and i % 19 == 5:
             out[-1]["big_data"] = True
+        if fam == "mvn":
+            out[-1]["q_param"] = ["covariance_matrix", "precision_matrix", "scale_tril"][(i // len(FAMILIES)) % 3]
+        if i % 4 == 1:
+            out[-1]["q_history"] = True  # q starts somewhere else, is used once, and is then moved to the posterior through its parameters
+        if fam == "normal-affine" and i % 2 == 0:
+            out[-1]["reversed_keys"] = True  # the transform's arguments written in another order than its constructor takes them
         if len(shape) == 1 and i % 5 == 2:
             out[-1]["override_samples"] = True  # later requests pass samples=... with another count, as the convergence checks do
     for i in range(40 if tier == "quick" else 400):
@@ -125,7 +131,8 @@ def build(case):
             return {"p": p, "q": q, "joint_terms": ["prior", "lik", "theta"], "logZ": logZ, "ref": ref, "latent": "z", "qparam": "q.m"}
         # normal through an affine transform: w = c + d z, prior N(m0, s0) on w, likelihood on w; q on z
         c, d = float(rng.normal()), float(gm.loguniform(rng, 0.5, 2))
-        w = {"id": "w", "type": "TransformedParameter", "transform": "torch.distributions.AffineTransform", "parameters": {"loc": c, "scale": d}, "x": P("z", [0.1])}
+        w = {"id": "w", "type": "TransformedParameter", "transform": "torch.distributions.AffineTransform", "parameters": ({"scale": d, "loc": c} if case.get("reversed_keys") else {"loc": c, "scale": d}),
+             "x": P("z", [0.1])}
         p = [D("prior", "torch.distributions.Normal", w, loc=m0, scale=s0), D("lik", "torch.distributions.Normal", P("data", x.tolist()), loc="w", scale=sig)]
         qmz, qsz = (qm - c) / d, qs / d
         q = D("q", "torch.distributions.Normal", "z", loc=P("q.m", [qmz]), scale=P("q.s", [qsz]))
@@ -179,7 +186,9 @@ def build(case):
                 p.append(D("lik%d" % i, "torch.distributions.MultivariateNormal", P("data%d" % i, x.tolist()), loc="z", covariance_matrix=P("Sig%d" % i, Sig.tolist())))
         qm = mn + (0.2 if off else 0.0)
         qS = Sn * (1.3 if off else 1.0)
-        q = {"id": "q", "type": "MultivariateNormal", "x": "z", "parameters": {"loc": P("q.m", qm.tolist()), "covariance_matrix": P("q.S", qS.tolist())}}
+        qpar = case.get("q_param", "covariance_matrix")
+        qval = {"covariance_matrix": qS, "precision_matrix": np.linalg.inv(qS), "scale_tril": np.linalg.cholesky(qS)}[qpar]
+        q = {"id": "q", "type": "MultivariateNormal", "x": "z", "parameters": {"loc": P("q.m", qm.tolist()), qpar: P("q.S", qval.tolist())}}
         ref = {"logq": lambda z: stats.multivariate_normal.logpdf(z, qm, qS), "entropy": stats.multivariate_normal.entropy(qm, qS)}
         return {"p": p, "q": q, "joint_terms": prior_terms + ["lik%d" % i for i in range(nobs)], "logZ": float(logZ), "ref": ref, "latent": "z", "qparam": "q.m"}
     raise ValueError(fam)
@@ -283,9 +292,33 @@ def run_case(case):
     if case["qform"] == "bare":
         var = dict(b["q"])
         var["id"] = "var"
+    final = {}
+    if case.get("q_history"):
+        # the variational parameters start at neutral values and reach the posterior only later, through the parameter interface
+        import copy
+
+        qd = copy.deepcopy(b["q"])
+        for key, pv in qd["parameters"].items():
+            if isinstance(pv, dict) and "tensor" in pv:
+                t = np.asarray(pv["tensor"], dtype=float)
+                final[pv["id"]] = t
+                start = np.eye(t.shape[0]) if t.ndim == 2 else (np.zeros_like(t) if pv["id"] == "q.m" else np.ones_like(t))
+                pv["tensor"] = start.tolist()
+        if case["qform"] == "bare":
+            var = dict(qd, id="var")
+        else:
+            var = {"id": "var", "type": "JointDistributionModel", "distributions": [qd]}
     spec = b["p"] + [{"id": "joint", "type": "JointDistributionModel", "distributions": b["joint_terms"]}, var, objective_json(case)]
     objs, dic = tt.load(spec)
     obj, pm, qm = dic["obj"], dic["joint"], dic["var"]
+    if final:
+        try:
+            obj()  # used once where it starts
+        except Exception:
+            pass  # (what a first request does is judged below, on the posterior)
+        for pid, t in final.items():
+            dic[pid].tensor = torch.tensor(t, dtype=dic[pid].tensor.dtype)
+        C["q_moved_to_posterior_after_use"] = 1
     latent = dic[b["latent"]]
     logZ = float(b["logZ"])
     shape = tuple(case["shape"])
